@@ -9,6 +9,8 @@ import TdVerif.Model.C19Vmap
 import TdVerif.Lemmas.C19Vmap
 import TdVerif.Model.C19Lazy
 import TdVerif.Lemmas.C19Lazy
+import TdVerif.Model.C19Ops
+import TdVerif.Gen.C19Shapes
 
 namespace TdVerif.Props.C19
 open TdVerif.C19
@@ -130,6 +132,64 @@ theorem vmap2_eq_loop (op : TOp2) (p : List TOp) (i1 i2 : Option Nat) (o size le
   rw [hhead, hsize, hlist, hb0, hn0]
   simp
 
+/-! ## 2c. vmap dimensions of size 0 -/
+
+theorem stackLeavesT_eq_stackLeaves (s0 : Leaves) (rest : List Leaves) (o : Nat) :
+    stackLeavesT s0 (s0 :: rest) o = stackLeaves (s0 :: rest) o := by
+  unfold stackLeavesT stackLeaves
+  simp only [List.headD_cons]
+  apply List.map_congr_left
+  intro p hp
+  have hget : s0[p.2]? = some p.1 := List.mem_zipIdx_iff_getElem?.mp hp
+  have hd : (s0.getD p.2 default) = p.1 := by simp [List.getD, hget]
+  simp only [stackT, stack, List.map_cons, List.headD_cons, hd]
+
+/-- for a non-empty vmapped dimension the size-agnostic unwrapping is the one used so far … -/
+theorem removeBDT_eq_removeBD (o : Nat) (b : BTD) (h : 0 < b.size) : removeBDT o b = removeBD o b := by
+  unfold removeBDT removeBD
+  obtain ⟨n, hn⟩ : ∃ n, b.size = n + 1 := ⟨b.size - 1, by omega⟩
+  have : (List.range b.size).map b.sample = b.sample 0 :: (List.range' 1 n).map b.sample := by
+    rw [hn, List.range_eq_range', List.range'_succ]; rfl
+  rw [this, stackLeavesT_eq_stackLeaves]
+
+/-- … hence `vmapTDT` is the per-sample loop whenever there is at least one sample … -/
+theorem vmapT_eq_loop (p : List TOp) (i o level : Nat) (td : TD) (hsz : 0 < td.batch.getD i 0) :
+    vmapTDT p i o level td = stackTD ((unbindTD td i).map (runProg p)) o := by
+  have hs : (runProgB p (addBD i level td)).size = td.batch.getD i 0 := by rw [runProgB_size]; rfl
+  unfold vmapTDT
+  rw [removeBDT_eq_removeBD _ _ (by rw [hs]; exact hsz)]
+  exact vmap_td_eq_loop p i o level td hsz
+
+/-- … **and for a vmapped dimension of size 0** (where `stack([])` is undefined) the result is the empty
+stack with the structure the function produces: batch size and names by the usual bookkeeping with a 0 at
+`out_dim`, the keys of the per-sample output, and every leaf of shape (per-sample leaf shape) with 0 inserted at `out_dim` -/
+theorem vmap_size_zero (p : List TOp) (i o level : Nat) (td : TD) (hz : td.batch.getD i 0 = 0) :
+    (vmapTDT p i o level td).batch = (bsProg p (td.batch.eraseIdx i)).insertIdx o 0 ∧
+    (vmapTDT p i o level td).names = (nmProg p (td.batch.eraseIdx i) (td.names.eraseIdx i)).insertIdx o none ∧
+    (vmapTDT p i o level td).leaves.map (fun q => (q.1, q.2.shape))
+      = (runProg p (td.sel i 0)).leaves.map (fun q => (q.1, q.2.shape.insertIdx o 0)) := by
+  have hbk := bd_bookkeeping p i o level td
+  have hs : (runProgB p (addBD i level td)).size = 0 := by rw [runProgB_size]; exact hz
+  have h0 : (runProgB p (addBD i level td)).sample 0 = (runProg p (td.sel i 0)).leaves :=
+    congrArg TD.leaves (runProgB_sampleTD p (addBD i level td) 0)
+  refine ⟨?_, ?_, ?_⟩
+  · have := hbk.1; rw [hz] at this; exact this
+  · exact hbk.2
+  · show (stackLeavesT ((runProgB p (addBD i level td)).sample 0) ((List.range (runProgB p (addBD i level td)).size).map _) o).map _ = _
+    rw [hs, h0]
+    simp only [stackLeavesT, List.range_zero, List.map_nil, List.map_map]
+    have : ∀ (l : Leaves) (k : Nat), (l.zipIdx k).map ((fun q : String × T => (q.1, q.2.shape)) ∘ (fun (p : (String × T) × Nat) => (p.1.1, stackT p.1.2.shape [] o)))
+        = l.map (fun q => (q.1, q.2.shape.insertIdx o 0)) := by
+      intro l
+      induction l with
+      | nil => intro k; rfl
+      | cons a l ih =>
+        intro k
+        simp only [List.zipIdx_cons, List.map_cons]
+        rw [ih (k + 1)]
+        simp [Function.comp, stackT]
+    exact this _ 0
+
 /-! ## 3. coherence of the result -/
 
 /-- a leaf whose leading dims are the per-sample batch keeps leading dims = result batch after the
@@ -246,6 +306,23 @@ theorem nested_vmap_eq_double_loop (p : List TOp) (i1 o1 l1 i2 o2 l2 : Nat) (td 
   rw [vmapOp_run, vmap_td_eq_loop p i2 o2 l2 (td.sel i1 k) h2]
   simp [unbindTD, List.map_map]
 
+/-- **nested vmap of any depth** equals the nested per-sample loop: for every list of (in_dim, out_dim)
+pairs, every innermost program and every starting level — by induction on the depth, each level being
+one application of `vmap_td_eq_loop` to the inner vmap seen as an operation of the outer function -/
+theorem nested_vmap_any_depth : ∀ (dims : List (Nat × Nat)) (p : List TOp) (lvl : Nat) (td : TD),
+    SizesPos dims td.batch → runProg (nestProg dims p lvl) td = loopSpec dims (runProg p) td
+  | [], _, _, _, _ => rfl
+  | (i, o) :: rest, p, lvl, td, h => by
+      show (vmapOp (nestProg rest p (lvl + 1)) i o lvl).run td = _
+      rw [vmapOp_run, vmap_td_eq_loop _ i o lvl td h.1]
+      show stackTD ((unbindTD td i).map (runProg (nestProg rest p (lvl + 1)))) o
+        = stackTD ((unbindTD td i).map (loopSpec rest (runProg p))) o
+      congr 1
+      simp only [unbindTD, List.map_map]
+      apply List.map_congr_left
+      intro k _
+      exact nested_vmap_any_depth rest p (lvl + 1) (td.sel i k) h.2
+
 /-- the result of a vmap does not depend on the level number it ran at -/
 theorem nested_vmap_levels_independent (p : List TOp) (i o l l' : Nat) (td : TD) :
     vmapTD p i o l td = vmapTD p i o l' td := by
@@ -353,6 +430,13 @@ theorem lazy_stackdim_derived_counterexample :
     (stackTD ((unbindTD (LTD.dense ⟨0, [⟨[], [], [("a", arangeT 0 [])]⟩, ⟨[], [], [("a", arangeT 7 [])]⟩]⟩) 0).map
       (runProg [⟨id, fun _ n => n, fun _ l => l⟩])) 0).batch = [2] := by
   decide
+
+/-! ## 6c. the transcribed sources -/
+
+/-- `_add_batch_dim`, `_remove_batch_dim`, `_maybe_remove_batch_dim` (TensorDict and lazy stack),
+`_cached_add_batch_dims`, `_process_batched_inputs`, `_create_batched_inputs`, `_unwrap_batched` still have the
+shape (normalised ast, regenerated on every run) the model was transcribed from -/
+theorem transcribed_sources_unchanged : Gen.C19.shapes = expectedShapes := by decide +kernel
 
 /-! ## 7. non-vacuity -/
 
